@@ -129,6 +129,7 @@ class LiquidTag(Tag):
                         token=token_,
                     ),
                     block_depth_carry=stream.block_depth,
+                    parent=token_,
                 ),
                 end=(),
             )
